@@ -60,7 +60,7 @@ VStored ==
 RFlags(nc, oic) == (IF nc THEN <<"no-cache">> ELSE <<>>) \o (IF oic THEN <<"only-if-cached">> ELSE <<>>)
 VProbes ==
   { [Rq0 EXCEPT !.fl = RFlags(nc, oic), !.ma = a, !.ms = s, !.sie = e]
-      : nc \in BOOLEAN, oic \in BOOLEAN, a \in (IF Thorough THEN {None, 0, 4} ELSE {None, 4}),
+      : nc \in BOOLEAN, oic \in BOOLEAN, a \in {None, 0, 4},
         s \in (IF Thorough THEN {None, NoArg, 5} ELSE {None, 5}), e \in {None, 10} }
 
 Stored == IF Family = "F" THEN FStored ELSE VStored
@@ -114,7 +114,5 @@ Spec == Init /\ [][Next]_vars
 \* the intended design satisfies every monitor that judges the code
 NoViolation == Violated(led) = {}
 \* sensitivity runs: print and go on
-RecordViolations == Violated(led) = {} \/ PrintT(<<"MVIOL", Violated(led), led.last.kind,
-    IF led.last.kind = "ret" THEN <<led.last.e.label, led.last.e.age, led.last.ages, led.last.rq.fl, led.last.rq.ma, led.last.rq.mf, led.last.rq.ms, led.last.rq.sie,
-                                    led.last.rep.fl, led.last.rep.ma, led.last.rep.exp, led.last.rep.lm, led.last.rep.age, led.last.rep.swr, led.last.rep.sie, led.last.rep.ncf, Len(led.last.fg), led.last.e.t - led.last.rep.respT>> ELSE <<>> >>)
+RecordViolations == Violated(led) = {} \/ PrintT(<<"MVIOL", Violated(led), led.last.kind>>)
 =============================================================================
